@@ -1,13 +1,15 @@
 CONSTANTS
   Dev = {}
+  Mut = {}
+  AdvOn = {"ANS", "DS", "DNSKEY"}
   AnchorForms = {"dnskey"}
   Cfgs = {"new", "setdef", "tiny", "cname1", "iterins0", "iterbog0"}
   MaxRuns = 1
   EntQKinds = {"positive"}
   Budget = 1
   Shapes = {"secure3", "insecure3"}
-  Denials = {"nsec", "nsec3", "optout"}
-  QKinds = {"positive", "cname1", "cname2", "wildcard", "nodata", "nxdomain", "wcnodata", "wcname", "dname"}
+  Denials = {"nsec", "nsec3"}
+  QKinds = {"positive", "cname2", "wildcard", "nxdomain", "wcnodata", "dname"}
   AdvActs = {"StripProof", "CorruptKey", "SigsFirst"}
 SPECIFICATION Spec
 VIEW View
